@@ -19,6 +19,7 @@ type vGenSess struct {
 	reqB     int
 	hasB     bool
 	o        *vOut
+	focus    string // property id the run is for (VERIF_ARGS focus=Cxx): biases the generator, never restricts soundness
 }
 
 func (g *vGenSess) op(format string, a ...any) string {
@@ -84,13 +85,27 @@ func vAgentGen(o *vOut, r *vRand, thorough bool, args []string, emit func(string
 		n = 2500
 		budget = 7 * time.Minute
 	}
+	focus := ""
+	for _, a := range args {
+		if strings.HasPrefix(a, "focus=") {
+			focus = a[6:]
+		}
+	}
 	t0 := time.Now()
 	for i := 0; i < n && time.Since(t0) < budget; i++ {
-		g := &vGenSess{r: r.fork(), emit: emit, o: o}
-		switch g.r.intn(10) {
-		case 0, 1, 2:
+		g := &vGenSess{r: r.fork(), emit: emit, o: o, focus: focus}
+		singles := 3 // out of 10
+		switch focus {
+		case "C01":
+			singles = 0
+		case "C02", "C03":
+			singles = 6
+		case "C05", "C20":
+			singles = 2
+		}
+		if g.r.intn(10) < singles {
 			g.single()
-		default:
+		} else {
 			g.double()
 		}
 	}
@@ -111,7 +126,7 @@ func (g *vGenSess) double() {
 	r := g.r
 	g.hasB = true
 	liteB := r.chance(1, 8)
-	renom := r.chance(1, 4)
+	renom := r.chance(1, 4) || (g.focus == "C20" && r.chance(3, 4))
 	g.o.stat("sess.double")
 	g.op("new %s %s", g.cfg("A", false, renom), g.cfg("B", liteB, false))
 	na, nb := 1+r.intn(3), 1+r.intn(3)
@@ -187,7 +202,11 @@ func (g *vGenSess) double() {
 		}
 	}
 	roleA, roleB := 1, 0
-	switch r.intn(8) {
+	rolePick := r.intn(8)
+	if g.focus == "C05" && r.chance(1, 2) {
+		rolePick = r.intn(2) // same-role starts
+	}
+	switch rolePick {
 	case 0:
 		roleA, roleB = 1, 1
 		g.o.stat("sess.bothcontrolling")
@@ -315,6 +334,32 @@ func (g *vGenSess) double() {
 func (g *vGenSess) randomAction(gen *int, addrA, addrB, net0 int) {
 	r := g.r
 	x := r.intn(100)
+	switch g.focus {
+	case "C01":
+		// clean sessions: no forged traffic, no credential games; deliver / time / loss / duplication only
+		if x >= 72 && x < 95 || x >= 96 {
+			x = r.intn(72)
+		}
+	case "C02":
+		if r.chance(1, 3) {
+			x = 85 // inject
+		}
+	case "C07":
+		if r.chance(1, 3) {
+			x = 72 + r.intn(19) // write / read / writepair / data
+			if x >= 83 && x < 88 {
+				x = 89
+			}
+		}
+	case "C04":
+		if r.chance(1, 6) {
+			x = 99
+		}
+	case "C06":
+		if r.chance(1, 5) {
+			x = 97 // trickle remote candidates (duplicates, other types, prflx supersession)
+		}
+	}
 	switch {
 	case x < 40:
 		if g.inflight > 0 {
